@@ -29,6 +29,7 @@ pub(crate) mod utils;
 #[cfg(eigerco_lumina_verif)]
 pub(crate) mod verif_shim {
     pub(crate) use super::client::verif_decode_and_verify_responses as decode_and_verify_responses;
+    pub(crate) use super::client::verif_client::{VerifClient, VerifEvent, VerifReqState, VerifSnapshot};
 }
 
 use crate::p2p::P2pError;
